@@ -47,6 +47,8 @@ type Descriptor struct {
 	PkgVars      []string `json:"pkg_vars"`      // package-level variables that are not error sentinels
 	OpOnly       bool     `json:"op_only"`       // scheduling must stay operation-granular
 	LockRewrites int      `json:"lock_rewrites"` // x.Lock()/x.RLock() statements rewritten to TryLock loops
+	ClockReads   int      `json:"clock_reads"`   // time.Now / Since / Until / Sleep expressions redirected to the simulated clock
+	Timers       []string `json:"timers"`        // time.After / AfterFunc / NewTimer / NewTicker / Tick: left on the real clock (their goroutines are foreign to the simulator)
 	OnceWraps    int      `json:"once_wraps"`    // x.Do(f) statements put behind a cooperative gate
 	WaitHints    int      `json:"wait_hints"`    // runtime.Gosched() statements preceded by a "waiting" hint
 	Rewrite      bool     `json:"rewrite"`       // lock rewriting was enabled for this copy
@@ -64,6 +66,7 @@ var syncishSelector = map[string]bool{"Load": true, "Store": true, "Swap": true,
 type insertion struct {
 	off  int
 	text string
+	del  int // octets of the source replaced by text (0: pure insertion)
 }
 
 // Run copies srcDir (a Go module) to dstDir, instrumenting every non-test Go
@@ -230,8 +233,18 @@ func RunOpts(srcDir, dstDir string, rewrite bool) (*Descriptor, error) {
 		tf := fset.File(f.Pos())
 
 		importsSync := false
+		timeName, timeRewrites := "", 0
 		for _, imp := range f.Imports {
 			p := strings.Trim(imp.Path.Value, `"`)
+			if p == "time" {
+				timeName = "time"
+				if imp.Name != nil {
+					timeName = imp.Name.Name
+				}
+				if timeName == "_" || timeName == "." {
+					timeName = ""
+				}
+			}
 			if p == "sync" || p == "sync/atomic" {
 				d.SyncImports = append(d.SyncImports, rel+":"+p)
 				importsSync = true
@@ -265,7 +278,7 @@ func RunOpts(srcDir, dstDir string, rewrite bool) (*Descriptor, error) {
 				return true
 			})
 			d.SiteTable = append(d.SiteTable, s)
-			ins = append(ins, insertion{tf.Offset(pos), fmt.Sprintf("zzSimhook.Yield(%d); ", id)})
+			ins = append(ins, insertion{off: tf.Offset(pos), text: fmt.Sprintf("zzSimhook.Yield(%d); ", id)})
 		}
 		// rewriteStmt applies the Lock / Once.Do / Gosched rewrites to a statement that is an element of a
 		// statement list (never to the init or post statement of an if / for / switch, where inserting further
@@ -296,8 +309,8 @@ func RunOpts(srcDir, dstDir string, rewrite bool) (*Descriptor, error) {
 				// whether x offers TryLock (sync.Mutex, sync.RWMutex, a struct embedding one, a sync.Locker holding
 				// one); if so it acquires the lock in a loop that yields to the simulated scheduler while the lock is
 				// taken, otherwise it reports false and the original statement runs (a lock of the tree's own making).
-				ins = append(ins, insertion{tf.Offset(x.Pos()), fmt.Sprintf("if !zzSimhook.CoopLock(&(%s), %v) { ", recv, sel.Sel.Name == "RLock")})
-				ins = append(ins, insertion{tf.Offset(x.End()), " }"})
+				ins = append(ins, insertion{off: tf.Offset(x.Pos()), text: fmt.Sprintf("if !zzSimhook.CoopLock(&(%s), %v) { ", recv, sel.Sel.Name == "RLock")})
+				ins = append(ins, insertion{off: tf.Offset(x.End()), text: " }"})
 				d.LockRewrites++
 			case sel.Sel.Name == "Do" && len(call.Args) == 1:
 				// sync.Once holds a mutex while f runs.  The statement is put behind a cooperative gate (one per Once
@@ -308,13 +321,13 @@ func RunOpts(srcDir, dstDir string, rewrite bool) (*Descriptor, error) {
 				if recv != "" {
 					key = fmt.Sprintf("zzSimhook.OnceKey(&(%s))", recv)
 				}
-				ins = append(ins, insertion{tf.Offset(x.Pos()), fmt.Sprintf("func() { zzG := %s; for !zzSimhook.Enter(zzG) { zzSimhook.Blocked() }; defer zzSimhook.Leave(zzG); ", key)})
-				ins = append(ins, insertion{tf.Offset(x.End()), " }()"})
+				ins = append(ins, insertion{off: tf.Offset(x.Pos()), text: fmt.Sprintf("func() { zzG := %s; for !zzSimhook.Enter(zzG) { zzSimhook.Blocked() }; defer zzSimhook.Leave(zzG); ", key)})
+				ins = append(ins, insertion{off: tf.Offset(x.End()), text: " }()"})
 				d.OnceWraps++
 			case isGosched(call):
 				{
 					// a hand-written wait loop: tell the scheduler that this task is waiting for another one
-					ins = append(ins, insertion{tf.Offset(x.Pos()), "zzSimhook.Waiting(); "})
+					ins = append(ins, insertion{off: tf.Offset(x.Pos()), text: "zzSimhook.Waiting(); "})
 					d.WaitHints++
 				}
 			}
@@ -358,7 +371,7 @@ func RunOpts(srcDir, dstDir string, rewrite bool) (*Descriptor, error) {
 			case *ast.ForStmt:
 				if es, ok := x.Post.(*ast.ExprStmt); ok && rewrite && isGosched(es.X) {
 					// for ; cond; runtime.Gosched() { }: the wait hint goes to the top of the body
-					ins = append(ins, insertion{tf.Offset(x.Body.Lbrace) + 1, " zzSimhook.Waiting();"})
+					ins = append(ins, insertion{off: tf.Offset(x.Body.Lbrace) + 1, text: " zzSimhook.Waiting();"})
 					d.WaitHints++
 				}
 			case *ast.CaseClause:
@@ -383,6 +396,19 @@ func RunOpts(srcDir, dstDir string, rewrite bool) (*Descriptor, error) {
 				d.ChanOps++
 				d.BlockingSync = append(d.BlockingSync, fmt.Sprintf("%s:%d channel type", rel, tf.Line(x.Pos())))
 			case *ast.SelectorExpr:
+				if id, ok := x.X.(*ast.Ident); ok && timeName != "" && id.Name == timeName && id.Obj == nil {
+					switch x.Sel.Name {
+					case "Now", "Since", "Until", "Sleep":
+						if rewrite {
+							// the clock seam: the tree reads the simulated clock (same signatures in the hook package)
+							ins = append(ins, insertion{off: tf.Offset(id.Pos()), text: "zzSimhook", del: len(id.Name)})
+							timeRewrites++
+							d.ClockReads++
+						}
+					case "After", "AfterFunc", "NewTimer", "NewTicker", "Tick":
+						d.Timers = append(d.Timers, fmt.Sprintf("%s:%d time.%s", rel, tf.Line(x.Pos()), x.Sel.Name))
+					}
+				}
 				if id, ok := x.X.(*ast.Ident); ok && id.Name == "sync" {
 					switch x.Sel.Name {
 					case "Pool", "Map":
@@ -407,16 +433,23 @@ func RunOpts(srcDir, dstDir string, rewrite bool) (*Descriptor, error) {
 		out := src
 		if len(ins) > 0 {
 			// import right after the package clause, on the same line
-			ins = append(ins, insertion{tf.Offset(f.Name.End()), fmt.Sprintf("; import zzSimhook %q", hookImport)})
+			ins = append(ins, insertion{off: tf.Offset(f.Name.End()), text: fmt.Sprintf("; import zzSimhook %q", hookImport)})
 			sort.SliceStable(ins, func(i, j int) bool { return ins[i].off < ins[j].off })
 			var b bytes.Buffer
 			last := 0
 			for _, in := range ins {
+				if in.off < last {
+					continue // inside a replaced stretch (cannot happen with the rewrites in use)
+				}
 				b.Write(src[last:in.off])
 				b.WriteString(in.text)
-				last = in.off
+				last = in.off + in.del
 			}
 			b.Write(src[last:])
+			if timeRewrites > 0 {
+				// the file may have no other use of the package left
+				fmt.Fprintf(&b, "\nvar _ = %s.Now\n", timeName)
+			}
 			out = b.Bytes()
 		}
 		if err := writeFile(filepath.Join(dstDir, rel), out); err != nil {
@@ -432,7 +465,7 @@ func RunOpts(srcDir, dstDir string, rewrite bool) (*Descriptor, error) {
 	var hb bytes.Buffer
 	hb.WriteString("// Code generated by the verification instrumenter. DO NOT EDIT.\n\n")
 	hb.WriteString("// Package zz_simhook carries the scheduler hook of the deterministic simulation.\n")
-	hb.WriteString("package zz_simhook\n\nimport (\n\t\"sync\"\n\t\"unsafe\"\n)\n\n")
+	hb.WriteString("package zz_simhook\n\nimport (\n\t\"sync\"\n\t\"time\"\n\t\"unsafe\"\n)\n\n")
 	hb.WriteString(hookLockSrc)
 	hb.WriteString("// Hook is called before every statement of the instrumented module when non-nil.\n")
 	hb.WriteString("var Hook func(site int)\n\n")
@@ -449,6 +482,7 @@ func RunOpts(srcDir, dstDir string, rewrite bool) (*Descriptor, error) {
 	hb.WriteString("// ResetGates opens every gate (called by the harness between runs).\n//\n//go:norace\nfunc ResetGates() {\n\tfor i := range gates {\n\t\tgates[i].depth = 0\n\t}\n}\n\n")
 	hb.WriteString("// Active is set by the harness around the concurrent phase of a run.\nvar Active bool\n\n// NoPreempt is kept for compatibility (always 0).\nvar NoPreempt int\n\n")
 	hb.WriteString("// SiteInfo describes one yield site.\ntype SiteInfo struct {\n\tFile string\n\tLine int\n\tFunc string\n\tFuncFirst bool\n\tGlobal bool\n\tHot bool\n}\n\n")
+	fmt.Fprintf(&hb, "// ClockSites is the number of clock expressions of the module redirected to the simulated clock.\nconst ClockSites = %d\n\n", d.ClockReads)
 	fmt.Fprintf(&hb, "// OpOnly is set when the module contains blocking synchronisation of its own.\nconst OpOnly = %v\n\n", d.OpOnly)
 	hb.WriteString("// Sites is the table of generated yield sites.\nvar Sites = [...]SiteInfo{\n")
 	for _, s := range d.SiteTable {
@@ -515,6 +549,48 @@ func tryFuncOf(p interface{}, read bool) func() bool {
 		return t.TryLock
 	}
 	return nil
+}
+
+// SimNow is the simulated clock in nanoseconds since the Unix epoch (0: no simulation, the real clock is read).
+// It is a plain variable written by whichever simulated task holds the token.
+var SimNow int64
+
+// ClockReads counts reads of the simulated clock.
+var ClockReads uint64
+
+// Now stands in for time.Now in the instrumented module.
+//
+//go:norace
+func Now() time.Time {
+	if SimNow == 0 {
+		return time.Now()
+	}
+	ClockReads++
+	return time.Unix(0, SimNow)
+}
+
+// Since stands in for time.Since.
+//
+//go:norace
+func Since(t time.Time) time.Duration { return Now().Sub(t) }
+
+// Until stands in for time.Until.
+//
+//go:norace
+func Until(t time.Time) time.Duration { return t.Sub(Now()) }
+
+// Sleep stands in for time.Sleep: simulated time passes, and the other tasks get a chance to run.
+//
+//go:norace
+func Sleep(d time.Duration) {
+	if SimNow == 0 {
+		time.Sleep(d)
+		return
+	}
+	if d > 0 {
+		SimNow += int64(d)
+	}
+	Waiting()
 }
 
 // OnceKey identifies the sync.Once behind the receiver of a wrapped x.Do(f) statement (0: not a sync.Once
